@@ -112,7 +112,7 @@ def _run_conv(ctx, b, q):
         ctx.tlc_mc('Chain_MC', 'Chain_MC5.cfg', workers=6, timeout=14400, stage=d)
         ctx.tlc_mc('Chain_MC', _cfg(ctx, d, 'Chain_MCs.cfg', 'Chain_MC7.cfg', Trees='Shapes7'), workers=4, timeout=7200, stage=d)
         # anti-vacuity: every action of the mechanism is taken, and the premises of the properties are reached
-        r = ctx.tlc_mc('Chain_MC', 'Chain_MCs.cfg', workers=2, timeout=7200, stage=d, coverage=True, count=False)
+        r = ctx.tlc_mc('Chain_MC', 'Chain_MCq.cfg', workers=2, timeout=7200, stage=d, coverage=True, count=False)
         if r.get('zero_actions'):
             raise vlib.Broken('vacuous: actions never taken: %s' % r['zero_actions'][:3])
         r = ctx.tlc_mc('Chain_MC', _cfg(ctx, d, 'Chain_MCs.cfg', 'Chain_MCvac.cfg', append='INVARIANTS PremiseNeverHolds'),
@@ -154,16 +154,18 @@ def _run_bad(ctx, b, q):
     d = ctx.stage()
     trees = 'BadQ' if q else 'BadT'
     base = _cfg(ctx, d, 'Chain_Bad.cfg', 'Chain_BadX.cfg', Trees=trees)
-    ctx.tlc_mc('Chain_MC', _cfg(ctx, d, base, 'Chain_Bad0.cfg', append='INVARIANTS TypeOK SeqConsecutive SeqReplay SeqDelOK'),
-               workers=4, timeout=3600, stage=d)
-    cands = {}
-    for inv in ('RejectedUnchanged', 'NoPoison', 'NoServeRejected', 'NoReexec'):
-        r = ctx.tlc_mc('Chain_MC', _cfg(ctx, d, base, 'Chain_Bad_%s.cfg' % inv, append='INVARIANTS ' + inv), workers=2,
-                       timeout=3600, stage=d, expect_violation=True, count=False)
-        cands[inv] = bool(r['violation'])
+    # one exhaustive run over the mechanism: structural invariants must hold; the C27 clauses the model refutes
+    # are collected (candidates, see Chain_Cand.tla) rather than reported as TLC violations
+    r = ctx.tlc_mc('Chain_Cand', _cfg(ctx, d, base, 'Chain_Bad0.cfg',
+                                      append='INVARIANTS TypeOK SeqConsecutive SeqReplay SeqDelOK CandMark\nPOSTCONDITION CandPost'),
+                   workers=1, timeout=3600, stage=d)
+    m = re.search(r'@@CAND"?,\s*\{([^}]*)\}', r['out'])
+    if not m:
+        raise vlib.Broken('no @@CAND line in the TLC output')
+    cands = sorted(x.strip().strip('"') for x in m.group(1).split(',') if x.strip())
     ctx.extra['tlc_refutes_on_mechanism'] = cands
-    ctx.notes.append('TLC on the mechanism model refutes: %s (candidates; only what is reproduced on the real code is reported)'
-                     % ', '.join(k for k, v in cands.items() if v))
+    ctx.notes.append('TLC refutes on the mechanism model: %s (candidates; only what is reproduced on the real code is reported)'
+                     % ', '.join(cands))
     allb = ctx.tlc_genall('Chain_All', _cfg(ctx, d, 'Chain_All.cfg', 'Chain_AllBad.cfg', Trees=trees, Variants='{"g", "t"}',
                                              Pids='{"peer", "download"}'), stage=d, timeout=3600)
     ctx.extra['exhaustive_delivery_orders'] = len(allb)
